@@ -1,7 +1,8 @@
 (* C45: xDS resource parsing is total and accepted resources satisfy invariants.
    Theorems only; each is closed by [exact] of a lemma from proof/XdsParse_proofs.v.
    parse_eds / parse_rds transcribe unmarshalEndpointsResource+parseEDSRespProto and
-   unmarshalRouteConfigResource+routesProtoToSlice (after proto.Unmarshal) over an
+   unmarshalRouteConfigResource+routesProtoToSlice, and parse_lds the HTTP filter list
+   validation of unmarshalListenerResource (processHTTPFilters), (after proto.Unmarshal) over an
    abstract syntax of the protos (model/XdsParse.v).  An update uses the same records:
    cla = (accepted, drops, localities), route = xdsresource.Route. *)
 From Coq Require Import List ZArith Bool.
@@ -96,6 +97,27 @@ Theorem C45_fraction_exact_refuted :
     frac_exact (r_fnum w_frac) (r_fden w_frac) = 4294970000 /\ r_fnum o = 2704.
 Proof. exact fraction_wrap_refuted. Qed.
 Print Assumptions C45_fraction_exact_refuted.
+
+(* Listener / HttpConnectionManager.http_filters (processHTTPFilters), client API listeners
+   and server-side listeners: an accepted filter list is non-empty, its last retained filter
+   is terminal (kind 1, router) and no other one is, retained names are distinct and
+   non-empty, and every retained filter is registered and supported on that side. *)
+Theorem C45_lds_filter_invariants : forall named server fs out, parse_lds named server fs = Some out ->
+  named = true /\
+  (exists init l, out = init ++ [l] /\ fst l = 1 /\ forall f, In f init -> fst f <> 1) /\
+  NoDup (map snd out) /\
+  (forall f, In f out -> flt_supported server (fst f) = true /\ snd f <> 0 /\
+     exists o n0, In (fst f, o, n0) fs /\ snd f = u32 n0).
+Proof. exact lds_invariants_readable. Qed.
+Print Assumptions C45_lds_filter_invariants.
+
+(* a filter list in which every entry is optional and has no registered implementation is
+   rejected with an error (the model never indexes an empty list), whatever its length *)
+Theorem C45_lds_all_skipped_rejected : forall server fs,
+  Forall (fun f => flt_registered (fst (fst f)) = false /\ z2b (snd (fst f)) = true) fs ->
+  forall named, parse_lds named server fs = None.
+Proof. exact all_skipped_rejected. Qed.
+Print Assumptions C45_lds_all_skipped_rejected.
 
 (* The word stream used for requests and answers decodes back exactly (so the clauses
    below are evaluated on what the model answered). *)
